@@ -71,24 +71,24 @@ def r06_2(ctx: Ctx) -> None:
         func = ctx.fn(REC, qual)
         cfg = CFG(func)
         area = func.args.args[1].arg
-        inserts = [c for c in calls(func) if txt(c.func) == f"self.{lst}.insert" and len(c.args) == 2 and txt(c.args[1]) == area]
-        ok = len(inserts) == 1 and txt(inline_reaching(cfg, inserts[0], inserts[0].args[0])) == f"bisect.bisect_left(self.{lst}, {area})"
+        from ..loopview import resolve_alias
+        inserts = [c for c in calls(func) if last_attr(c) == "insert" and txt(resolve_alias(func, c.func.value)) == f"self.{lst}"
+                   and len(c.args) == 2 and txt(c.args[1]) == area]
+        bis = inline_reaching(cfg, inserts[0], inserts[0].args[0]) if len(inserts) == 1 else None
+        ok = isinstance(bis, ast.Call) and txt(bis.func) == "bisect.bisect_left" and len(bis.args) == 2 \
+            and txt(resolve_alias(func, bis.args[0])) == f"self.{lst}" and txt(bis.args[1]) == area
         ctx.ob("R06.2", REC, inserts[0] if inserts else func, qual, "ordered insert", ok,
                "the area is inserted at the bisection point of the sorted list (the three adders are the same algorithm "
                "modulo the family names: each is held to the same obligations)", form=txt(inserts[0])[:100] if inserts else "")
         ok = any(isinstance(n, ast.Assign) and txt(n.targets[0]) == f"{area}.parent_record" and txt(n.value) == "self"
                  for n in walk_local(func))
         ctx.ob("R06.2", REC, func, qual, "parent record", ok, "the area's parent record is set", form="")
-        ok = _renumbers(func, f"self.{lst}", f"self.{num}")
-        if ok and inserts:
-            # renumbering starts at the insertion index
-            index_names = {txt(inserts[0].args[0])}
-            text = " ".join(txt(n) for n in walk_local(func) if isinstance(n, (ast.For, ast.Call)))
-            ok = any(name in text for name in index_names)
+        # renumbering starts at the insertion index
+        ok = bool(inserts) and _renumbers(func, f"self.{lst}", f"self.{num}", first=txt(inserts[0].args[0]))
         ctx.ob("R06.2", REC, func, qual, "renumber", ok,
                "every area from the insertion index to the end is renumbered i + 1 (1-based, in list order)", form="")
-        loops = [n for n in walk_local(func) if isinstance(n, ast.For)
-                 and txt(n.iter) == f"self.get_cds_features_within_location({area}.location)"]
+        from ..loopview import is_area_lookup
+        loops = [n for n in walk_local(func) if isinstance(n, ast.For) and is_area_lookup(func, cfg, n.iter, area)]
         ok = len(loops) == 1 and any(txt(c.func) == f"{area}.add_cds" and txt(c.args[0]) == txt(loops[0].target) for c in calls(loops[0]))
         ctx.ob("R06.2", REC, func, qual, "link genes", ok,
                "every gene within the area's location is linked into the area", form="")
@@ -256,37 +256,29 @@ def r06_1(ctx: Ctx) -> None:
            "a parent link can only be set to a collection containing the child", form="")
 
 
-def _renumbers(func: ast.AST, lst: str, table: str) -> bool:
-    """ every element from the insertion index to the end gets its list position + 1, as a loop
-        `for i in range(index, len(L)): T[L[i]] = i + 1`, `for n, x in enumerate(L[index:], index + 1): T[x] = n`,
-        or the same pairs handed to T.update({...}) as a dict comprehension """
-    cfg = CFG(func)
-
-    def pairs(iterable: ast.AST, target: ast.AST, key: ast.AST, value: ast.AST, at: ast.AST) -> bool:
-        it = inline_reaching(cfg, at, iterable)
-        if isinstance(it, ast.Call) and call_name(it) == "range" and len(it.args) == 2 and txt(it.args[1]) == f"len({lst})" \
-                and isinstance(target, ast.Name):
-            i = target.id
-            return txt(key) == f"{lst}[{i}]" and txt(value) in (f"{i} + 1", f"1 + {i}")
-        if isinstance(it, ast.Call) and call_name(it) == "enumerate" and it.args and isinstance(target, ast.Tuple) \
-                and len(target.elts) == 2 and isinstance(it.args[0], ast.Subscript) and txt(it.args[0].value) == lst \
-                and isinstance(it.args[0].slice, ast.Slice) and it.args[0].slice.upper is None and it.args[0].slice.lower is not None:
-            start = it.args[1] if len(it.args) > 1 else kwarg(it, "start")
-            lower = txt(it.args[0].slice.lower)
-            number, elem = (txt(e) for e in target.elts)
-            return start is not None and txt(start) in (f"{lower} + 1", f"1 + {lower}") \
-                and txt(key) == elem and txt(value) == number
-        return False
-    for loop in [n for n in walk_local(func) if isinstance(n, ast.For)]:
-        stores = [st for st in loop.body if isinstance(st, ast.Assign) and isinstance(st.targets[0], ast.Subscript)
-                  and txt(st.targets[0].value) == table]
-        if len(stores) == 1 and len(loop.body) == 1 and pairs(loop.iter, loop.target, stores[0].targets[0].slice, stores[0].value, loop):
-            return True
-    for call in calls(func):
-        if txt(call.func) == f"{table}.update" and len(call.args) == 1 and isinstance(call.args[0], ast.DictComp) \
-                and len(call.args[0].generators) == 1 and not call.args[0].generators[0].ifs:
-            comp = call.args[0]
-            if pairs(comp.generators[0].iter, comp.generators[0].target, comp.key, comp.value, call):
+def _renumbers(func: ast.AST, lst: str, table: str, first: Optional[str] = None) -> bool:
+    """ every element from the insertion index to the end gets its list position + 1: a loop over the list from that
+        index on (any of the spellings of asa.loopview) whose body stores `T[<element>] = <position> + 1`, or the same
+        pairs handed to T.update({...}) as a dict comprehension.  With `first`, the walk must start at that position. """
+    from ..loopview import loops_over, resolve_alias
+    for node, v in loops_over(func, lst):
+        if not v.to_end:
+            continue
+        if first is not None and v.lower_text != first:
+            continue
+        if isinstance(node, ast.For):
+            stores = [st for st in node.body if isinstance(st, ast.Assign) and isinstance(st.targets[0], ast.Subscript)
+                      and txt(resolve_alias(func, st.targets[0].value)) == table]
+            others = [st for st in node.body if st not in stores
+                      and not (isinstance(st, ast.Assign) and isinstance(st.targets[0], ast.Name) and st.targets[0].id == v.elem)]
+            if len(stores) == 1 and not others and v.is_element(stores[0].targets[0].slice, func) \
+                    and v.position_plus(stores[0].value, 1):
+                return True
+        else:
+            par = getattr(node, "_parent", None)
+            if isinstance(par, ast.Call) and isinstance(par.func, ast.Attribute) and par.func.attr == "update" \
+                    and txt(resolve_alias(func, par.func.value)) == table \
+                    and v.is_element(node.key, func) and v.position_plus(node.value, 1):
                 return True
     return False
 
@@ -368,7 +360,9 @@ def r06_4_5(ctx: Ctx) -> None:
         raise AnalysisError("create_regions: section split not found")
     app = appends[0]
     loop = enclosing_loops(app, stop=func)[0]
-    var = txt(loop.target)
+    from ..loopview import view as _loop_view
+    lview = _loop_view(func, loop.iter, loop.target, loop.body)
+    var = lview.elem if lview is not None and lview.elem else txt(loop.target)
     merges = [c for c in calls(loop) if call_name(c) == "connect_locations"]
     running = ""
     for merge in merges:
@@ -425,6 +419,8 @@ def r06_4_5(ctx: Ctx) -> None:
            "an overlapping area extends the running section to the span covering both (with the wrap point)",
            form=txt(merges[0]) if merges else "")
     swept = loop.iter.value if isinstance(loop.iter, ast.Subscript) else loop.iter
+    if lview is not None and lview.seq:
+        swept = ast.parse(lview.seq, mode="eval").body
     ok = any(isinstance(s, ast.Expr) and txt(s.value) == f"{txt(swept)}.sort()" and cfg.dominates(cfg.n(s), cfg.n(loop))
              for s in func.body) or (isinstance(swept, ast.Call) and call_name(swept) == "sorted")
     ctx.ob("R06.5", REC, func, qual, "areas sorted", ok, "the sweep runs over the areas in sorted order", form="")
